@@ -203,7 +203,14 @@ class Simplifier(pysmt.walkers.DagWalker):
         sl = args[0]
         sr = args[1]
 
-        if sl.is_constant() and sr.is_constant():
+        if sl.is_array_value() or sr.is_array_value():
+            # constant_value() is not defined for array values
+            if sl.is_constant() and sr.is_constant():
+                return self.manager.Bool(self._array_values_equal(sl, sr))
+            elif sl == sr:
+                return self.manager.TRUE()
+            return self.manager.Equals(sl, sr)
+        elif sl.is_constant() and sr.is_constant():
             l = sl.constant_value()
             r = sr.constant_value()
             return self.manager.Bool(l == r)
@@ -211,6 +218,32 @@ class Simplifier(pysmt.walkers.DagWalker):
             return self.manager.TRUE()
         else:
             return self.manager.Equals(sl, sr)
+
+    def _array_values_equal(self, l: FNode, r: FNode) -> bool:
+        """Extensional equality of two constant array values."""
+        if l is r:
+            return True
+        if not l.is_array_value():
+            # Other constants are unique in the manager
+            return False
+        l_map = l.array_value_assigned_values_map()
+        r_map = r.array_value_assigned_values_map()
+        indexes = set(l_map) | set(r_map)
+        for i in indexes:
+            if not self._array_values_equal(l.array_value_get(i),
+                                            r.array_value_get(i)):
+                return False
+        if self._array_values_equal(l.array_value_default(),
+                                    r.array_value_default()):
+            return True
+        # Different defaults: equal only if the assigned indexes cover
+        # the whole index domain
+        idx_type = l.array_value_index_type()
+        if idx_type.is_bv_type():
+            return len(indexes) == 2**cast(types._BVType, idx_type).width
+        elif idx_type.is_bool_type():
+            return len(indexes) == 2
+        return False
 
     def walk_ite(self, formula: FNode, args: List[FNode], **kwargs) -> FNode:
         assert len(args) == 3
